@@ -31,6 +31,18 @@ type Event struct {
 
 var ErrInjected = errors.New("tr: injected transport failure")
 
+// tempErr is a transient transport error: a net.Error that reports Timeout() and Temporary(), as an
+// expired deadline or an interrupted system call does. The connection itself stays usable.
+type tempErr struct{}
+
+func (tempErr) Error() string   { return "tr: injected temporary transport error (i/o timeout)" }
+func (tempErr) Timeout() bool   { return true }
+func (tempErr) Temporary() bool { return true }
+func (tempErr) Unwrap() error   { return os.ErrDeadlineExceeded }
+
+// ErrTemporary is what the transient faults below return.
+var ErrTemporary net.Error = tempErr{}
+
 type Addr struct{ C *Conn }
 
 func (a *Addr) Network() string { return "mem" }
@@ -69,6 +81,12 @@ type Conn struct {
 	ShortWrite  bool
 	EOFInstead  bool // read faults deliver io.EOF instead of an error
 	failed      bool
+
+	// transient faults (the connection stays usable afterwards):
+	TempReadAt   int // the k-th Read call returns (0, ErrTemporary) once
+	TempReadFrom int // every Read call from the k-th on returns (0, ErrTemporary): a deadline that has passed for good
+	TempWriteAt  int // the k-th Write call takes half of its bytes and returns (n, ErrTemporary) once
+	tempFired    int
 
 	CloseErr error // returned by the server-side Close (the connection is closed all the same)
 	rdl, wdl time.Time
@@ -116,6 +134,18 @@ func (c *Conn) Read(p []byte) (int, error) {
 	if c.closed {
 		return 0, net.ErrClosed
 	}
+	if (c.TempReadAt > 0 && c.reads == c.TempReadAt) || (c.TempReadFrom > 0 && c.reads >= c.TempReadFrom) {
+		c.tempFired++
+		if c.tempFired > 2000 {
+			// a server that answers every temporary error with another Read would spin for ever:
+			// the run is over (TempFired tells the check), let the goroutine go
+			c.failed = true
+			c.ended = true
+			c.cond.Broadcast()
+			return 0, ErrInjected
+		}
+		return 0, ErrTemporary
+	}
 	if c.failed || (c.FailReadAt > 0 && c.reads >= c.FailReadAt) || (c.FailByteAt >= 0 && c.consumed >= c.FailByteAt) {
 		c.failed = true
 		c.ended = true
@@ -150,6 +180,14 @@ again:
 	}
 	c.blocked = false
 	seg := c.in[0]
+	if len(seg) == 1 && &seg[0] == &tempMark[0] {
+		// transient-error marker (see SendCutTemp): this Read fails with a temporary error, the bytes
+		// behind the marker are delivered by the Reads that follow
+		c.in = c.in[1:]
+		c.tempFired++
+		c.log(Event{Kind: "T", N: c.consumed})
+		return 0, ErrTemporary
+	}
 	if len(seg) == 0 {
 		// pause marker: the client stays silent for longer than any deadline the server may have set.
 		// With a read deadline pending that deadline fires (virtual time, no waiting); without one a
@@ -192,6 +230,13 @@ func (c *Conn) Write(p []byte) (int, error) {
 	}
 	if expired(c.wdl) {
 		return 0, os.ErrDeadlineExceeded
+	}
+	if c.TempWriteAt > 0 && c.writes == c.TempWriteAt && len(p) > 1 {
+		n := len(p) / 2
+		c.out = append(c.out, p[:n]...)
+		c.tempFired++
+		c.cond.Broadcast()
+		return n, ErrTemporary
 	}
 	if c.failed || (c.FailWriteAt > 0 && c.writes >= c.FailWriteAt) {
 		n := 0
@@ -300,6 +345,27 @@ func (c *Conn) SendCutPaused(b []byte, cuts []int) {
 			continue
 		}
 		push(b[prev:k])
+		prev = k
+	}
+	c.Send(b[prev:])
+}
+
+var tempMark = []byte{0xee}
+
+// SendCutTemp queues b cut at the given offsets with a transient-error marker at every cut: the Read
+// that reaches a cut returns (0, ErrTemporary) once, the following Reads deliver the rest. A server
+// may end the connection there or resume; what it must not do is lose its place in the stream.
+func (c *Conn) SendCutTemp(b []byte, cuts []int) {
+	prev := 0
+	for _, k := range cuts {
+		if k <= prev || k >= len(b) {
+			continue
+		}
+		c.Send(b[prev:k])
+		c.mu.Lock()
+		c.in = append(c.in, tempMark)
+		c.cond.Broadcast()
+		c.mu.Unlock()
 		prev = k
 	}
 	c.Send(b[prev:])
@@ -532,6 +598,13 @@ func (l *Listener) Accept() (net.Conn, error) {
 	case <-l.done:
 		return nil, net.ErrClosed
 	}
+}
+
+// TempFired returns how many transient faults were delivered on the connection.
+func (c *Conn) TempFired() int {
+	c.mu.Lock()
+	defer c.mu.Unlock()
+	return c.tempFired
 }
 
 // Accepted returns how many connections Accept has handed out so far.
